@@ -122,6 +122,21 @@ def run(ctx):  # noqa: C901
         ctx.ob("R-COV", uv, "objective == Re Tr(Dagger(P) rho)", bool(okd), "Hilbert-Schmidt inner product with the averaged referee operator" if okd else f"objective {show(ot)[:80] if ot else '?'}", p.node)
     mx = [n for n in walk_no_nested(uv.node) if isinstance(n, ast.Call) and isinstance(n.func, ast.Name) and n.func.id == "max"]
     ctx.ob("R-ENUM", uv, "value = max over strategies", bool(mx), "max reduction" if mx else "no max over strategies")
+    # pruning: a strategy may be skipped without solving only on the strength of an UPPER bound of its value lambda_max(P): trace (P >= 0),
+    # a matrix norm, a Gershgorin row sum.  The largest diagonal entry is a LOWER bound of lambda_max -- pruning with it drops optimal strategies
+    # whose averaged operator has a flat diagonal and large coherences.
+    skips = [n for n in walk_no_nested(uv.node) if isinstance(n, ast.If) and any(isinstance(x, (ast.Continue, ast.Break)) for x in n.body)
+             and any(isinstance(y, ast.Name) and y.id in ("max_unent_val",) for y in ast.walk(n.test))]
+    if skips:
+        tx = unparse(skips[0].test)
+        upper = any(k in tx for k in ("np.trace(", "linalg.norm(", "eigvalsh(", "eigh(", "np.sum(np.abs("))
+        lower = "diag(" in tx or "diagonal(" in tx
+        ctx.ob("R-ENUM", uv, "no strategy is skipped on a bound that is not an upper bound of its value", True if (upper and not lower) else False if lower else None,
+               f"pruned with `{tx[:60]}`" if (upper and not lower) else
+               f"`if {tx[:70]}: continue` prunes an answer pair with its largest diagonal entry, which bounds lambda_max from BELOW: a pair whose operator is, say, "
+               "[[.5, .5], [.5, .5]] (value 1) is skipped once 0.5 has been reached", skips[0], required=lower)
+    else:
+        ctx.ob("R-ENUM", uv, "no strategy is skipped on a bound that is not an upper bound of its value", True, "every strategy is evaluated")
     C07._objective_terms(ctx, uv, sk, roles, (), pred_positions=("A_out", "B_out", "A_in", "B_in"))
 
     C07._nonsignaling(ctx, eg.methods["nonsignaling_value"], role_names=EROLES)
